@@ -374,9 +374,27 @@ func (w *Walker) kill(st *State, lhs ast.Expr) {
 	st.Facts = kept
 }
 
-// Contains reports whether outer's source range contains inner.
+// Contains reports whether inner is a node of outer's subtree (by identity, not by source
+// position: inlined helper bodies keep the positions of the helper).
 func Contains(outer, inner ast.Node) bool {
-	return outer.Pos() <= inner.Pos() && inner.End() <= outer.End()
+	if outer == nil || inner == nil {
+		return false
+	}
+	if outer == inner {
+		return true
+	}
+	found := false
+	ast.Inspect(outer, func(n ast.Node) bool {
+		if found {
+			return false
+		}
+		if n == inner {
+			found = true
+			return false
+		}
+		return true
+	})
+	return found
 }
 
 // ForEachPathTo calls visit with the state of every path that reaches target
